@@ -307,7 +307,9 @@ def _populate_expr_impl_map(extend_context: bool) -> Dict[int, Dict[str, Callabl
         "median": lambda x: x.median(),
         "min": lambda x: x.min(),
         "month": lambda x: x.month(),
-        "nunique": lambda x: x.drop_nulls().n_unique(),  # missing values are not counted (as in Pandas and SQL)
+        "nunique": lambda x: x.drop_nulls()
+        .n_unique()
+        .cast(pl.Int64),  # missing values are not counted (as in Pandas and SQL); a signed count (UInt32 wraps at -n)
         "quarter": lambda x: x.quarter(),
         "rank": lambda x: x.rank(),
         "round": lambda x: x.round(decimals=0),
